@@ -15,12 +15,25 @@ import (
 
 var simArgs []string
 
+var simExit int
+
 func TestMain(m *testing.M) {
 	simArgs = os.Args[1:]
 	os.Args = []string{os.Args[0], "-test.run=^TestSim$", "-test.timeout=0"}
-	os.Exit(m.Run())
+	if d := os.Getenv("KVSIM_COVERDIR"); d != "" {
+		// coverage experiment (a binary built with -cover): every process leaves its counters in d
+		os.Args = append(os.Args, "-test.gocoverdir="+d)
+	}
+	code := m.Run()
+	if simExit != 0 {
+		code = simExit
+	}
+	os.Exit(code)
 }
 
 func TestSim(t *testing.T) {
-	os.Exit(core.Main(simArgs, t))
+	simExit = core.Main(simArgs, t)
+	if os.Getenv("KVSIM_COVERDIR") == "" {
+		os.Exit(simExit)
+	}
 }
